@@ -442,3 +442,64 @@ func VerifC10Policies() {
 	a2, _ := NewVerifier(g.tok, gPatient)
 	vAssert(a2.LoadPolicies(vBytes("garbage", 3)) != nil, "C10.policies-garbage-rejected")
 }
+
+// VerifC10LeakedWork: evaluation of a token's checks must not leave a library goroutine behind that
+// still writes to state the caller goes on using (the symbol table grows when string concatenation is
+// evaluated): such a write is a data race with the caller, and a torn slice header terminates the
+// process on a goroutine no application can recover. The check's head names a variable that its body
+// does not bind (the evaluation of that query ends early) and its expression concatenates strings.
+func VerifC10LeakedWork() {
+	vForbidPanic("C10")
+	vRaceDetect("C10")
+	vTimerMode(0)
+	rng := &chainRNG{}
+	root := ed25519Key(vWide("root", 32))
+	b := NewBuilder(root, WithRNG(rng))
+	b.AddAuthorityFact(Fact{Predicate{Name: "f", IDs: []Term{String("s0")}}})
+	b.AddAuthorityFact(Fact{Predicate{Name: "f", IDs: []Term{String("s1")}}})
+	head := Predicate{Name: "q", IDs: []Term{Variable("zz")}}
+	if vChoose("head", 2) == 1 {
+		head = Predicate{Name: "q", IDs: []Term{Variable("a")}}
+		vLabel("well-formed head")
+	} else {
+		vLabel("unbound head variable")
+	}
+	q := Rule{Head: head,
+		Body:        []Predicate{{Name: "f", IDs: []Term{Variable("a")}}, {Name: "f", IDs: []Term{Variable("b")}}},
+		Expressions: []Expression{{Value{Variable("a")}, Value{Variable("b")}, BinaryAdd, Value{String("s0s0")}, BinaryEqual}}}
+	where := vChoose("where", 2)
+	if where == 0 {
+		vLabel("token check")
+		b.AddAuthorityCheck(Check{Queries: []Rule{q}})
+	}
+	tok, err := b.Build()
+	if err != nil {
+		return
+	}
+	data, err := tok.Serialize()
+	if err != nil {
+		return
+	}
+	tok, err = Unmarshal(data)
+	if err != nil {
+		return
+	}
+	a, err := NewVerifier(tok, gPatient)
+	if err != nil {
+		return
+	}
+	if where == 1 {
+		vLabel("authorizer query")
+		a.AddPolicy(DefaultAllowPolicy)
+		a.Query(q)
+	} else {
+		a.AddPolicy(DefaultAllowPolicy)
+		a.Authorize()
+	}
+	vCover("evaluated")
+	// the caller goes on using its authorizer
+	_ = a.PrintWorld()
+	a.AddCheck(Check{Queries: []Rule{{Head: Predicate{Name: "query"}, Body: []Predicate{{Name: "f", IDs: []Term{String("fresh")}}}}}})
+	a.Authorize()
+	vQuiesce()
+}
